@@ -26,6 +26,10 @@ func genKwArg(r *rand.Rand) V {
 	case 3:
 		return V{T: 'g', B: true}
 	case 4:
+		if r.Intn(2) == 0 {
+			// stringer-like values without a usable text: refused as keyword, and never a reason to panic
+			return []V{{T: 'o', Ty: 27, ID: 1}, {T: 'o', Ty: 28, ID: 1}, {T: 'o', Ty: 29, ID: 1}}[r.Intn(3)]
+		}
 		return V{T: 's', S: ""}
 	default:
 		return V{T: 's', S: []string{"cn", "mail", "k w", "é"}[r.Intn(4)]}
@@ -53,7 +57,9 @@ func genExArg(r *rand.Rand) V {
 	case 3:
 		return V{T: 'g', ID: 2, S: "strg"}
 	case 4:
-		return V{T: 'o', Ty: 5, ID: 1} // typed nil pointer: a non-nil interface value
+		// typed nil pointers (one of them to a Stringer) and zero-valued structs with a promoted String method:
+		// non-nil interface values none of which has a usable text
+		return []V{{T: 'o', Ty: 5, ID: 1}, {T: 'o', Ty: 27, ID: 1}, {T: 'o', Ty: 28, ID: 1}, {T: 'o', Ty: 29, ID: 1}}[r.Intn(4)]
 	case 5:
 		return V{T: 'b', B: true}
 	case 6:
